@@ -398,6 +398,71 @@ def analyse_instance(ctx, mod, k, inst, has_conv, findings):
     return cnt, len(part)
 
 
+FLOAT_FACTORS = [Fraction(12), Fraction(1000), Fraction(3, 2), Fraction(5, 9), Fraction(7, 3), Fraction(10 ** 6), Fraction(2 ** 31 - 1),
+                 Fraction(1, 12), Fraction(1, 1000), Fraction(2), Fraction(381, 1250), Fraction(1609344, 1000), "pi/180", "180/pi"]
+
+
+def float_clause(ctx, rnd):
+    """C04, floating reps: overflow is reported for every finite value whose scaled magnitude
+    exceeds the type's largest finite value and never for values safely below it.  Decided on an
+    exact partition of ALL finite values of the type (vlib/fcells.py)."""
+    from vlib import fcells, irbuild
+    insts = [(t, f) for t in ("float", "double") for f in FLOAT_FACTORS]
+    if ctx.thorough:
+        for _ in range(60):
+            insts.append((rnd.choice(["float", "double"]), Fraction(rnd.randrange(1, 10 ** 6), rnd.randrange(1, 10 ** 6))))
+    blocks = []
+    for k, (t, f) in enumerate(insts):
+        if f == "pi/180":
+            mg = "au::Magnitude<au::Pi>{} / au::mag<180>()"
+        elif f == "180/pi":
+            mg = "au::mag<180>() / au::Magnitude<au::Pi>{}"
+        else:
+            mg = "au::mag<%dULL>() / au::mag<%dULL>()" % (f.numerator, f.denominator)
+        blocks.append((k, "struct FB%d : au::UnitImpl<au::Length> {}; struct FA%d : decltype(FB%d{} * (%s)) {};\n"
+                          "extern \"C\" %s fconv_%d(%s x) { return au::make_quantity<FA%d>(x).coerce_in(FB%d{}); }\n"
+                          "extern \"C\" bool fovf_%d(%s x) { return au::will_conversion_overflow(au::make_quantity<FA%d>(x), FB%d{}); }\n"
+                          "extern \"C\" bool ftrunc_%d(%s x) { return au::will_conversion_truncate(au::make_quantity<FA%d>(x), FB%d{}); }\n"
+                          "extern \"C\" bool flossy_%d(%s x) { return au::is_conversion_lossy(au::make_quantity<FA%d>(x), FB%d{}); }"
+                       % (k, k, k, mg, t, k, t, k, k, k, t, k, k, k, t, k, k, k, t, k, k)))
+    mod, alive, dropped = irbuild.build_blocks(ctx, PRELUDE, blocks, "c04f", only=lambda n: n.startswith(("fconv_", "fovf_", "ftrunc_", "flossy_")))
+    nob = ndis = ncell = 0
+    PIV = Fraction(314159265358979323846264338327950288, 10 ** 35)
+    for k in alive:
+        t, f = insts[k]
+        fe = PIV / 180 if f == "pi/180" else 180 / PIV if f == "180/pi" else f
+        key = "%s:%s" % (t, f)
+        roots = {nm: dag.build(mod.funcs["%s_%d" % (nm, k)], mod).ret for nm in ("fconv", "fovf", "ftrunc", "flossy")}
+        part, _ = fcells.analyse(roots, t)
+        mx = fcells.fmax(t)
+        for cell, rlo, rhi in part:
+            ncell += 1
+            if cell.special:
+                continue
+            for end, r, o in (("lo", rlo, cell.lo), ("hi", rhi, cell.hi)):
+                x = fcells.ord_to_val(o, t)
+                nob += 1
+                ok = True
+                if r["ftrunc"] != 0:
+                    ctx.violation(key + "|float-truncates", "will_conversion_truncate is true for a floating rep (%s, x=%r)" % (key, float(x)))
+                    ok = False
+                if r["flossy"] != (r["fovf"] | r["ftrunc"]):
+                    ctx.violation(key + "|disjunction", "is_conversion_lossy is not overflow || truncate for %s at x=%r" % (key, float(x)))
+                    ok = False
+                if not r["fovf"]:
+                    if r["fconv"] in (fcells.INF, fcells.NINF, fcells.NAN):
+                        ctx.violation(key + "|overflow-missed", "will_conversion_overflow is FALSE for %s x=%r although x times %s is %s (beyond the largest finite %s)"
+                                      % (t, float(x), f, r["fconv"], t), "cell %r" % cell)
+                        ok = False
+                else:
+                    if abs(x) * fe < mx * (1 - Fraction(1, 2 ** 20)):
+                        ctx.violation(key + "|overflow-false-positive", "will_conversion_overflow is TRUE for %s x=%r although |x| times %s is safely below the largest finite value" % (t, float(x), f), "cell %r" % cell)
+                        ok = False
+                ndis += ok
+    ctx.require(len(alive) >= 20, "floating clause: only %d instances analysed" % len(alive))
+    return dict(float_instances=len(alive), float_cells=ncell, float_obligations=nob, float_discharged=ndis, float_not_compiling=len(dropped))
+
+
 def run(ctx, prop):
     rnd = random.Random(ctx.seed)
     units = atoms.discover_units(ctx)
@@ -463,6 +528,11 @@ def run(ctx, prop):
         ir_functions_analysed=stats["functions"],
         findings_for_other_property=len(other),
     ))
+    if prop == "C04":
+        fst = float_clause(ctx, rnd)
+        ctx.coverage.update(fst)
+        ctx.coverage["obligations"] += fst["float_obligations"]
+        ctx.coverage["discharged"] += fst["float_discharged"]
     ctx.assumptions += ["value-level claims are about the source as lowered by clang 14 on x86-64/LP64",
                         "closed forms of vlib/model.py are the reading of the statement"]
     return stats
